@@ -3,6 +3,7 @@ package doif
 import (
 	"errors"
 	"fmt"
+	"math"
 	"slices"
 	"sync/atomic"
 	"time"
@@ -113,13 +114,31 @@ func NewTsCmpOpNode(field string, format string, cmpOp string, cmpValChangeMode 
 		format:           parsedFormat,
 		cmpOp:            typedCmpOp,
 		cmpValChangeMode: resCmpValChangeMode,
-		constCmpValue:    cmpValue.UnixNano(),
+		constCmpValue:    saturatedUnixNano(cmpValue),
 		cmpValueShift:    cmpValueShift.Nanoseconds(),
 		updateInterval:   updateInterval,
 	}
 	result.startUpdater()
 
 	return result, nil
+}
+
+var (
+	minUnixNanoTime = time.Unix(0, math.MinInt64)
+	maxUnixNanoTime = time.Unix(0, math.MaxInt64)
+)
+
+// saturatedUnixNano is t.UnixNano() for the instants an int64 count of nanoseconds can hold
+// (1677-09-21 .. 2262-04-11). Outside that range UnixNano is undefined (it wraps around, so that year 9999
+// compares as year 1816): keep the order by saturating instead.
+func saturatedUnixNano(t time.Time) int64 {
+	if t.Before(minUnixNanoTime) {
+		return math.MinInt64
+	}
+	if t.After(maxUnixNanoTime) {
+		return math.MaxInt64
+	}
+	return t.UnixNano()
 }
 
 func (n *tsCmpOpNode) startUpdater() {
@@ -158,7 +177,7 @@ func (n *tsCmpOpNode) Check(data Data) bool {
 		return false
 	}
 
-	lhs := int(timeVal.UnixNano())
+	lhs := int(saturatedUnixNano(timeVal))
 
 	rhs := int64(0)
 	switch n.cmpValChangeMode {
